@@ -6,7 +6,7 @@ from fractions import Fraction
 import numpy as np
 
 from ..common import Ctx, Tokens, close, driver_batch, f2b, fvec
-from . import c04_ext
+from . import c04_ext, c04_r3
 
 LEVEL = "proof"
 LEVEL_TEXT = (
@@ -30,13 +30,20 @@ LEVEL_TEXT = (
     "and the clause proved below the pole); Identity / LinearInfinite on (0, inf): domain (rmin, inf) containing the nodes; Becke: "
     "(rmin, inf) untrimmed, (rmin, 1e16) trimmed, node x = 1 included; MultiExp (decreasing): image (inf, rmin) sorted to (rmin, inf) / "
     "(rmin, 1e16). The driver takes the transform's declared domain from the generated text (InverseRTransform: generated swap) and "
-    "answers domain-differs when the implementation's tf.domain is not the same pair."
+    "answers domain-differs when the implementation's tf.domain is not the same pair. Round 3: OneDGrid.__init__ (the constructor "
+    "transform_1d_grid ends in) is regenerated statement by statement (Gen/OneDGridInit.lean: ndim guard, len / order of the domain, "
+    "np.min / np.max, the two 1e-7 comparisons, super().__init__, self._domain) and proved equal, for every carrier, to the hand model the "
+    "other theorems use (init_eq_model, transform1dGridGen_eq: what the driver runs = what the theorems are about); the acceptance window "
+    "with the regenerated constant (init_accepts_iff: accepted iff lo <= hi and every node in [lo - 1/10^7, hi + 1/10^7]; one node d outside: "
+    "iff d <= 1/10^7) and the same window seen through the map (transform_accepts_iff: accepted iff every image lies within 1/10^7 of the "
+    "ordered image of the old ends; linear_slack_above / _below: under LinearFiniteRTransform a node d outside [-1, 1] is accepted iff "
+    "d (rmax - rmin)/2 <= 1/10^7)."
 )
 TECHNIQUE = ("Lean 4 / Mathlib proof (list algebra, order, interval-integral substitution, polynomial composition) over "
              "definitions translated from the Python AST + differential run of the Float model + oracle on the implementation "
              "(mpmath.quad, exact rationals, sign and containment checks)")
-GEN = ["rtransform", "transform1d"]
-LEAN_MODULES = ["GridVerif.Props.C04.General", "GridVerif.Props.C04.Concrete", "GridVerif.Props.C04.Extended"]
+GEN = ["rtransform", "transform1d", "onedgrid_init"]
+LEAN_MODULES = ["GridVerif.Props.C04.General", "GridVerif.Props.C04.Concrete", "GridVerif.Props.C04.Extended", "GridVerif.Props.C04.Constructor"]
 THEOREMS = [f"GridVerif.C04.{t}" for t in [
     "integrate_transformed_signed", "integrate_transformed_partial", "integrate_transformed_decreasing",
     "reflection_midpoint1", "integrate_transformed_fails_at",
@@ -46,7 +53,10 @@ THEOREMS = [f"GridVerif.C04.{t}" for t in [
     "multiexp_negative_weights", "multiexp_integral_neg", "integrate_transformed_fails_at_multiexp",
     "gl_linear_exact", "linearFinite_accepts",
 ]] + [f"GridVerif.C04.Ext.{t}" for t in ["sort2_of_le", "sort2_of_lt", "sort2_nan_right", "sort2_nan_left", "sort2_ordered", "transform1dGrid_ok_x", "domain_sorted_image_x", "domain_ordered_image_x", "domain_nan_of_image_nan", "nodes_in_domain_x", "hyperbolic_transform_posInf", "hyperbolic_domain_nan", "hyperbolic_accepts_halfLine2", "hyperbolic_domain_fails_at", "hyperbolic_domain_partial", "identity_halfline", "linearInfinite_transform_posInf", "linearInfinite_halfline", "becke_transform_fin", "becke_transform_one", "becke_domain", "becke_nodes_in_domain_untrimmed", "becke_nodes_in_domain_trimmed", "multiExp_domain",
-    "inverse_becke_transform_posInf", "inverse_becke_domain_nan"]]     # round 2: the domain clauses on XReal (exact reals + IEEE inf/nan)
+    "inverse_becke_transform_posInf", "inverse_becke_domain_nan"]] + [     # round 2: the domain clauses on XReal (exact reals + IEEE inf/nan)
+    # round 3: OneDGrid.__init__ generated statement by statement, its 1e-7 window alone and seen through a transform
+    f"GridVerif.C04.Ctor.{t}" for t in ["init_eq_model", "init_ndim", "transform1dGridGen_eq", "init_accepts_iff", "init_ok_eq", "init_window_below",
+                                        "init_window_above", "transform_accepts_iff", "linear_slack_above", "linear_slack_below"]]
 RULE = (
     "correspondence: one evaluation = one call tf.transform_1d_grid(grid) (or OneDGrid(points, weights, domain)) made on the "
     "implementation and on the Lean model at Float; grid = one of 24 rule classes x npoints (smallest admissible, odd, even, "
@@ -62,12 +72,25 @@ RULE = (
     "np.float64, exponents 0.5..8, every class also wrapped in InverseRTransform on sub-intervals of its codomain, maps without inverse "
     "(ZeroDivisionError), n up to 1001 (thorough); compared in addition: the caller's grid is unchanged, b of the object = maximum of "
     "the first array; the concrete instances of the XReal theorems (rules on (0, inf), images at inf / 1e16, the nan domain) replayed on "
-    "the implementation, and the table of IEEE special-value operations that XReal encodes evaluated with NumPy."
+    "the implementation, and the table of IEEE special-value operations that XReal encodes evaluated with NumPy. Round 3 (c04_r3.py): every "
+    "threshold of the anchored code sampled on both sides at the factors 1.01 and 100 — the 1e-7 slack of the new grid seen through the map "
+    "(image s*d outside, s = slope: increasing / decreasing LinearFinite, Becke at x = -1, LinearInfinite at 0, InverseRTransform(LinearFinite)), "
+    "the trimming constant 1e16 (largest finite image at 1e16 * {0.01, 1/1.01, 1.01, 100}: nodes k ulp from the pole and TanhSinh(61..81) as "
+    "they are, Becke / Handy / Knowles / MultiExp, trim on and off, compared without the both-huge shortcut), the domain guard (grid domain one "
+    "ulp / 1e-9 / 1e-7/1.01 / 1e-5 inside and outside, -0.0, subnormal, InverseRTransform's codomain), abs(b) < 1e-16 of the inferred b; "
+    "OneDGrid.__init__ as generated (op C04.onedgrid_nd: points.ndim 0..3, the window at lo / hi of magnitude 1 ... 65536, reversed / empty / "
+    "nan / length mismatch); weights scaled by 1e-300 ... 1e12, nodes 1e-300 ... 1e12 and one ulp from the ends, scale parameters 1e-12 ... "
+    "1e12, intervals of width 1e-12; compositions of two and three transforms (rule / hand-built / one-node / nodes-on-the-ends grid -> "
+    "LinearFinite onto a strict sub-interval, either orientation -> any finite-domain class -> a half-line class or an InverseRTransform), "
+    "every stage against the model."
 )
 TRUSTED_BASE = [
     "Lean 4.33 kernel; Mathlib; axioms propext, Classical.choice, Quot.sound only (audited per theorem)",
     "translator harness/translate/transform1d.py (Python AST of transform_1d_grid -> Lean text) and rtransform.py (closed forms of the classes)",
-    "hand model Model/Transform1D.lean (order of checks, OneDGrid constructor with 1e-7 slack, np.min/np.max/np.sort of two elements), tied by correspondence",
+    "translator harness/translate/onedgrid_init.py (Python AST of OneDGrid.__init__ -> Gen/OneDGridInit.lean) and its vocabulary Model/OneDGridBase.lean "
+    "(len(domain) of a pair = 2; Grid.__init__ = the length check for 1-D arrays; np.min / np.max of Model/Transform1DBase.lean)",
+    "hand model Model/Transform1D.lean (order of checks, np.min/np.max/np.sort of two elements), tied by correspondence; its OneDGrid constructor with the "
+    "1e-7 slack is proved equal to the regenerated one (round 3)",
     "Elem instance at ℝ (Lemmas/ElemReal.lean); HasInf ℝ (no real is infinite)",
     "XReal (Lemmas/XReal.lean): the reading of IEEE-754 special values over exact reals (x/0 = +-inf, 0/0 = inf-inf = 0*inf = inf/inf = nan, "
     "every comparison with nan false, np.sort puts nan last); tied to NumPy by a table of special-value operations evaluated on every run",
@@ -218,11 +241,11 @@ def _parse(ans):
     return "ok", (pts, wts, (lo, hi) if has else None)
 
 
-def _same(a, b, rtol=1e-9, atol=1e-300):
-    """Floats agree; values in the blow-up regime of an infinite end point (|v| > 1e12: `2**k - (1+x)**k` at x = 1 is 0
+def _same(a, b, rtol=1e-9, atol=1e-300, huge=True):
+    """Floats agree (`huge=False`: also in the blow-up regime, round 3 threshold cases); values in the blow-up regime of an infinite end point (|v| > 1e12: `2**k - (1+x)**k` at x = 1 is 0
     with one pow routine and a few ulp with two, then trimmed to 1e16 or not) only have to be huge with the same sign."""
     a, b = float(a), float(b)
-    if rtol > 0 and abs(a) > 1e12 and abs(b) > 1e12 and (a > 0) == (b > 0):
+    if huge and rtol > 0 and abs(a) > 1e12 and abs(b) > 1e12 and (a > 0) == (b > 0):
         return True
     return close(a, b, rtol=rtol, atol=atol)
 
@@ -257,7 +280,7 @@ def _conditioning(tf, g, base=None, eps=2.220446049250313e-16):
 _STATS = {"limited": 0, "compared": 0}
 
 
-def _compare(tag, h, ans, rtol=1e-9, cond=None):
+def _compare(tag, h, ans, rtol=1e-9, cond=None, strict=False):
     """-> None if implementation result (tag, h) and driver answer agree, else a description"""
     mtag, m = _parse(ans)
     if tag != mtag:
@@ -275,15 +298,15 @@ def _compare(tag, h, ans, rtol=1e-9, cond=None):
     for i in range(h.size):
         # a node mapped (back) to 0 is a difference of O(1) numbers: absolute tolerance on points and domain
         if not limited(cond[0][i] if cond else 0.0, h.points[i]) and \
-                not _same(h.points[i], pts[i], rtol, atol=rtol + (cond[0][i] if cond else 0.0)):
+                not _same(h.points[i], pts[i], rtol, atol=rtol + (cond[0][i] if cond else 0.0), huge=not strict):
             return f"point {i}: implementation {float(h.points[i])!r}, model {pts[i]!r}"
         if not limited(cond[1][i] if cond else 0.0, h.weights[i]) and \
-                not _same(h.weights[i], wts[i], rtol, atol=1e-300 + (cond[1][i] if cond else 0.0)):
+                not _same(h.weights[i], wts[i], rtol, atol=1e-300 + (cond[1][i] if cond else 0.0), huge=not strict):
             return f"weight {i}: implementation {float(h.weights[i])!r}, model {wts[i]!r}"
     d = _dom(h.domain)
     if (d is None) != (dom is None):
         return f"domain: implementation {d}, model {dom}"
-    if d is not None and not (_same(d[0], dom[0], rtol, atol=rtol) and _same(d[1], dom[1], rtol, atol=rtol)):
+    if d is not None and not (_same(d[0], dom[0], rtol, atol=rtol, huge=not strict) and _same(d[1], dom[1], rtol, atol=rtol, huge=not strict)):
         return f"domain: implementation {d}, model {dom}"
     return None
 
@@ -917,8 +940,10 @@ def _unchanged(g, before):
             and np.array_equal(g.points, before[0], equal_nan=True) and np.array_equal(g.weights, before[1], equal_nan=True))
 
 
-def _corr_scripts(ctx: Ctx, scripts):
-    """every call of every script on the implementation (in order, on shared objects) and on the stateless Lean model"""
+def _corr_scripts(ctx: Ctx, scripts, strict=False, label="r2"):
+    """every call of every script on the implementation (in order, on shared objects) and on the stateless Lean model.
+    `strict` (round 3, threshold cases whose nodes are exact inputs of both sides): no conditioning slack, no
+    "both huge" shortcut — every value, however large, has to agree to rtol."""
     R, G = rt(), OneDGrid()
     build_tf, build_grid = _PROP_NS["c04_build_tf"], _PROP_NS["c04_build_grid"]
     plans, lines = [], []
@@ -970,12 +995,12 @@ def _corr_scripts(ctx: Ctx, scripts):
             f32 = g.points.dtype == np.float32
             base = T._tfm if inv else None
             cond = None
-            if itag == "ok":
+            if itag == "ok" and not strict:
                 cond = _conditioning(T, g, base, eps=6e-8 if f32 else 2.220446049250313e-16)
             if brefs[ci] == "no-b":
                 bad = None if itag == "value-error" else f"b cannot be inferred (maximum of the points is zero): implementation {itag}, expected value-error"
             else:
-                bad = _compare(itag, h, ans, rtol=2e-5 if f32 else 1e-9, cond=cond)
+                bad = _compare(itag, h, ans, rtol=2e-5 if f32 else 1e-9, cond=cond, strict=strict)
             if not bad and not _unchanged(g, before):
                 bad = (f"the caller's grid was changed by the call (weights {before[1][:3].tolist()} -> {g.weights[:3].tolist()}, "
                        f"points {before[0][:3].tolist()} -> {g.points[:3].tolist()})")
@@ -985,7 +1010,7 @@ def _corr_scripts(ctx: Ctx, scripts):
                     bad = f"parameter b of the object is {got_b!r}; the maximum of the first array it transformed is {brefs[ci]!r}"
             desc = [cat, ci, ("inverse:" if inv else "") + cls, spec["ps"], spec["trim"], before[0][:8].tolist(), script["grids"][gi]["domain"]]
             ctx.count(desc, nontrivial=g.size >= 2 or itag != "ok",
-                      tag="r2:" + cat.split(":")[0] + ":" + ("inverse:" if inv else "") + cls + (":" + itag if itag != "ok" else ""))
+                      tag=label + ":" + cat.split(":")[0] + ":" + ("inverse:" if inv else "") + cls + (":" + itag if itag != "ok" else ""))
             if bad:
                 cut = dict(script, calls=script["calls"][:ci + 1])
                 ctx.fail("corr", f"transform_1d_grid:{cls}", f"transform_1d_grid [{cat}] call {ci} of {script['calls']}: "
@@ -1649,11 +1674,21 @@ def oracle(ctx: Ctx, budget: str):
 _corr_main, _oracle_main = corr, oracle
 
 
+_oracle_at_main = oracle_at
+
+
 def corr(ctx: Ctx):  # noqa: F811
     _corr_main(ctx)
     c04_ext.corr_ext(ctx)
+    c04_r3.corr_r3(ctx)
 
 
 def oracle(ctx: Ctx, budget: str):  # noqa: F811
     _oracle_main(ctx, budget)
     c04_ext.oracle_ext(ctx, budget)
+    c04_r3.oracle_r3(ctx, budget)
+
+
+def oracle_at(ctx: Ctx, failure):  # noqa: F811
+    _oracle_at_main(ctx, failure)
+    c04_r3.oracle_at_r3(ctx, failure)
